@@ -29,6 +29,7 @@ type Timer struct {
 	C     *vchan.Chan[Time]
 	armed bool
 	D     Duration
+	Arms  []Duration // every duration the timer was armed with (NewTimer / AfterFunc / Reset), in order
 	f     func() // AfterFunc callback, run in its own goroutine when the timer fires
 }
 
@@ -39,7 +40,7 @@ func ResetAll() { timers = nil }
 
 func NewTimer(d Duration) *Timer {
 	vsched.StepK(vsched.KTimerNew)
-	t := &Timer{C: vchan.Make[Time](1), armed: true, D: d}
+	t := &Timer{C: vchan.Make[Time](1), armed: true, D: d, Arms: []Duration{d}}
 	timers = append(timers, t)
 	return t
 }
@@ -47,7 +48,7 @@ func NewTimer(d Duration) *Timer {
 // AfterFunc mirrors time.AfterFunc: when the timer is fired the callback runs in a new goroutine.
 func AfterFunc(d Duration, f func()) *Timer {
 	vsched.StepK(vsched.KAfterFunc)
-	t := &Timer{C: vchan.Make[Time](1), armed: true, D: d, f: f}
+	t := &Timer{C: vchan.Make[Time](1), armed: true, D: d, f: f, Arms: []Duration{d}}
 	timers = append(timers, t)
 	return t
 }
@@ -65,6 +66,7 @@ func (t *Timer) Reset(d Duration) bool {
 	was := t.armed || t.C.Len() > 0
 	t.armed = true
 	t.D = d
+	t.Arms = append(t.Arms, d)
 	t.C.Drain()
 	return was
 }
